@@ -195,7 +195,9 @@ Muts == {"none", "flipBundle", "flipSig", "truncBundle", "truncSig", "signedByOt
          \* structure-aware mutations of a validly signed bundle, and signed bundles whose window fields are unusable
          \* (a missing not-before or out-of-range nanoseconds still denote an instant for the code and are not
          \* claimed invalid here; a missing not-after is the epoch, i.e. long expired)
-         "appendField22", "appendUnknownField", "noNotAfter"}
+         "appendField22", "appendUnknownField", "noNotAfter",
+         \* key-type fields left at their zero value (unspecified) rather than set to a wrong type
+         "noCertType", "noEncType"}
 InWindow(v) == (v.nb + v.sknb <= 0) /\ (0 <= v.na + v.skna)
 ValidReq(v) == v.mut = "none" /\ InWindow(v)
 
@@ -275,6 +277,9 @@ Apply(st, o) ==
     [] o.op = "SetNid"      -> DoSetNid(st, o)
     [] o.op = "SetPrev"     -> DoSetPrev(st, o)
     [] o.op = "SetKeyKind"  -> DoSetKeyKind(st, o)
+    \* the record of k is edited to name the certificate key of `from` as its PREVIOUS certificate key (what authorising a
+    \* request that carries one stores).  Nothing in the registry's behaviour depends on that field.
+    [] o.op = "SetPrevCert" -> IF st.nodes[o.k].present THEN Out("ok", st) ELSE Out("skip", st)
     [] o.op = "StripSrv"    -> DoStripSrv(st, o)
     [] o.op = "TamperTime"  -> DoTamperTime(st, o)
     [] o.op = "Transplant"  -> DoTransplant(st, o)
